@@ -22,7 +22,7 @@ static std::string rep(const char* pat, int n) { std::string s; size_t L = strle
 
 template<class Fam>
 static void add_tasks(std::vector<Task>& tasks, const Config& cfg, const std::string& fam, const std::vector<Cfg>& cfgs, const std::vector<OperandSpec>& menu,
-                      int deep_n, int mix_depth, int mix_max_n, size_t deep_vals, unsigned grid = 64, int long_run = 0, int which = 7) {
+                      int deep_n, int mix_depth, int mix_max_n, size_t deep_vals, unsigned grid = 64, int long_run = 0, int which = 7, int menu_forms = 7) {
   for (size_t ci = 0; ci < cfgs.size(); ++ci) {
     const Cfg c = cfgs[ci];
     std::string tag = fam + "/k" + str(c.k) + (fam.find("req") == 0 ? std::string(c.hra ? "/hra" : "/lra") : "");
@@ -43,7 +43,7 @@ static void add_tasks(std::vector<Task>& tasks, const Config& cfg, const std::st
     }
     if (long_run && (which & 4)) { // (c) merges (also into the operand) followed by long runs of updates: bookkeeping a merge leaves behind must hold up
       QuantSys<Fam> sys; sys.nm = tag + "/merge-then-long"; sys.slot_cfgs.push_back(c); sys.max_n = mix_max_n + 2 * long_run + 40; sys.menu = menu; sys.light_check = false;
-      sys.add_update_ops(0, false); sys.add_menu_ops(); sys.add_long_op(long_run, 0); sys.add_long_op(long_run, 1);
+      sys.add_update_ops(0, false); sys.add_menu_ops(menu_forms); sys.add_long_op(long_run, 0); sys.add_long_op(long_run, 1);
       BfsLimits lim; lim.max_depth = 3; lim.max_states = 1500000; lim.grid = grid;
       Task t; t.name = sys.nm; t.fn = [sys, lim, &cfg](Report& rep) mutable { explore(sys, rep, cfg, lim); };
       tasks.push_back(t);
@@ -121,5 +121,22 @@ int main(int argc, char** argv) {
     m.push_back(opnd<F>("empty", 2, true, "", 0)); m.push_back(opnd<F>("k2n5c1", 2, true, "30212", 1)); m.push_back(opnd<F>("k4n11c0", 4, true, rep("1302", 11).c_str(), 0));
     add_tasks<F>(tasks, cfg, "classic-string", cfgs, m, q ? 10 : 14, q ? 3 : 4, 40, 3, 32);
   }
+  // (d) the largest legal sizes: KLL k = 65535, classic k = 32768, REQ k = 254 (the constructor keeps k in 8 bits) and the documented
+  // default sizes; two long runs and merges with small-k operands in all three forms. At these sizes almost everything stays exact,
+  // so every answer is compared with the true value of the multiset
+  { typedef KllFam<float, std::less<float> > F; const int ks[] = {65535, 200};
+    for (int i = 0; i < 2; ++i) { Cfg c; c.k = ks[i]; std::vector<Cfg> cfgs(1, c); std::vector<OperandSpec> m;
+      m.push_back(opnd<F>("empty", 8, true, "", 0)); m.push_back(opnd<F>("k8n26c1", 8, true, rep("0312", 26).c_str(), 1)); m.push_back(opnd<F>("k16n20", 16, true, rep("2013", 20).c_str(), 0));
+      add_tasks<F>(tasks, cfg, "kll-float", cfgs, m, 0, 0, 60, 3, 64, q ? 300 : 700, 4, 3); } }   // no reversed form: a tiny-k operand absorbing hundreds of items is one coin per compaction
+  { typedef ReqFam<float, std::less<float> > F; const int ks[] = {254, 12};
+    for (int i = 0; i < 2; ++i) for (int h = 0; h < 2; ++h) { Cfg c; c.k = ks[i]; c.hra = h == 1; c.init_coin = 0; std::vector<Cfg> cfgs(1, c); std::vector<OperandSpec> m;
+      m.push_back(opnd<F>("empty", ks[i], c.hra, "", 0)); m.push_back(opnd<F>("n60c1", ks[i], c.hra, rep("0132", 60).c_str(), 1));
+      add_tasks<F>(tasks, cfg, "req-float", cfgs, m, 0, 0, 120, 2, 64, q ? 300 : 700, 4, 3); } }
+  { typedef ClassicFam<int, std::less<int> > F; const int ks[] = {32768, 128};
+    for (int i = 0; i < 2; ++i) { Cfg c; c.k = ks[i]; std::vector<Cfg> cfgs(1, c); std::vector<OperandSpec> m;
+      // operands in exact mode only: an estimating operand of smaller k makes the classic merge take the copy route, in which a copy of
+      // the small sketch absorbs the large one (one coin per compaction at k = 2: an exponential tree)
+      m.push_back(opnd<F>("empty", 2, true, "", 0)); m.push_back(opnd<F>("k2n3", 2, true, "102", 0)); m.push_back(opnd<F>("k4n5", 4, true, "01232", 0)); m.push_back(opnd<F>("k8n13", 8, true, rep("0123", 13).c_str(), 0));
+      add_tasks<F>(tasks, cfg, "classic-int", cfgs, m, 0, 0, 70, 3, 32, q ? 300 : 700, 4, 3); } }
   return run_tasks(cfg, "C07", tasks);
 }
